@@ -9,6 +9,11 @@
  *                                       connects (connect() is made to report EINPROGRESS so that the
  *                                       WS host can be set before the handshake is sent), the PRNG is
  *                                       deterministic, so the client's key is 00 01 .. 0f
+ *   ws/wsc opt bit 1: between any two arrivals the session under script TRANSMITS a message
+ *                    (coap_ws_write through the layer table); these writes are not logged
+ *   request with Uri-Query "l=<n>": the handler answers with n payload bytes (sizes of written frames)
+ *   " wf=" (WS only): the frames the library wrote, hex, one per write - decoded by the check with
+ *                    the proved frame automaton (a malformed outgoing frame is a violation)
  *   tcpconsts | wsconsts | tcpsize <hdr> | tcpmaxrcv <mtu>
  *
  * Per case: fresh context, TCP endpoint on a unix-domain stream socket, a raw client socket
@@ -42,7 +47,7 @@ static coap_session_t *aux;          /* second session (interleaved traffic), ma
 static coap_socket_t *aux_sock;
 static const uint8_t *aux_buf;
 static size_t aux_len, aux_pos;
-static int want_aux;
+static int want_aux, want_own;
 static long n_events;
 static const uint8_t *scr_buf;       /* the arrival being consumed */
 static size_t scr_len, scr_pos;
@@ -129,9 +134,20 @@ int __wrap_select(int nfds, fd_set *r, fd_set *w, fd_set *x, struct timeval *tv)
   return __real_select(nfds, r, w, x, tv);
 }
 
+static int mute_writes;              /* a transmission injected by the driver itself */
+static FILE *wfl;                    /* WS frames written by the library */
+static char *wfl_mem;
+static size_t wfl_sz;
+static int wf_items;
+
 ssize_t __wrap_coap_socket_write(coap_socket_t *sock, const uint8_t *data, size_t data_len) {
   if (aux_sock && sock == aux_sock) return (ssize_t)data_len;
   if (!cur_sock || sock != cur_sock) return __real_coap_socket_write(sock, data, data_len);
+  if (mute_writes) return (ssize_t)data_len;
+  if (wfl && !(data_len >= 4 && (!memcmp(data, "HTTP", 4) || !memcmp(data, "GET ", 4)))) {
+    if (wf_items++) fputc(',', wfl);
+    for (size_t i = 0; i < data_len; i++) fprintf(wfl, "%02x", data[i]);
+  }
   n_writes++;
   for (size_t i = 0; i < data_len; i++) wr_hash = (wr_hash ^ data[i]) * 0x01000193u;
   wr_hash = (wr_hash ^ 0xa5) * 0x01000193u;     /* write boundary */
@@ -150,6 +166,20 @@ static void h_req(coap_resource_t *r, coap_session_t *s, const coap_pdu_t *req,
   (void)r; (void)q;
   if (s == cur) log_pdu(req);
   coap_pdu_set_code(rsp, COAP_RESPONSE_CODE_CONTENT);
+  if (q && q->length > 2 && q->length < 10 && q->s[0] == 'l' && q->s[1] == '=') {
+    char num[12];
+    size_t n;
+    uint8_t *body;
+    memcpy(num, q->s + 2, q->length - 2);
+    num[q->length - 2] = 0;
+    n = (size_t)atol(num);
+    if (n > 0 && n <= 70000 && (body = (uint8_t *)malloc(n))) {
+      memset(body, 'r', n);
+      coap_add_data(rsp, n, body);
+      free(body);
+      return;
+    }
+  }
   coap_add_data(rsp, 2, (const uint8_t *)"ok");
 }
 
@@ -269,6 +299,17 @@ static void aux_traffic(void) {
   e.data.ptr = aux_sock;
   coap_io_do_epoll(ctx, &e, 1);
   aux_buf = NULL; aux_len = aux_pos = 0;
+}
+
+/* the session under script transmits between two arrivals (what any application may do) */
+static void own_traffic(void) {
+  static const uint8_t ping[] = { 0x00, 0xe2, 0x20 };
+  if (!cur_sock || cur_sock->session != cur) return;
+  coap_lock_lock(ctx, return);
+  mute_writes = 1;
+  cur->sock.lfunc[COAP_LAYER_SESSION].l_write(cur, ping, sizeof(ping));
+  mute_writes = 0;
+  coap_lock_unlock(ctx);
 }
 
 static int connect_to(const char *path) {
@@ -391,6 +432,9 @@ static void run_stream(coap_proto_t proto) {
   cur = NULL; cur_sock = NULL; scr_buf = NULL; scr_len = scr_pos = 0; scr_eof = 0;
   aux = NULL; aux_sock = NULL; aux_fd = -1; n_events = 0;
   want_aux = !client_mode && proto != COAP_PROTO_TCP && (atol(vtok[1]) & 1);
+  want_own = proto != COAP_PROTO_TCP && (atol(vtok[1]) & 2);
+  wf_items = 0; mute_writes = 0;
+  wfl = proto != COAP_PROTO_TCP ? open_memstream(&wfl_mem, &wfl_sz) : NULL;
   n_reads = 0; n_writes = 0; wr_hash = 0x811c9dc5u; closed_seen = 0; obs_items = 0;
   obs = open_memstream(&obs_mem, &obs_sz);
   evl = open_memstream(&evl_mem, &evl_sz);
@@ -407,12 +451,15 @@ static void run_stream(coap_proto_t proto) {
       pump();
       pos += k;
       if (want_aux && pos < n) aux_traffic();
+      if (want_own && pos < n) own_traffic();
       scr_buf = NULL; scr_len = scr_pos = 0;
       free(chunk);
     }
     fflush(obs); fflush(evl);
-    printf("obs=%s closed=%d | ev=%s wr=%ld:%08x reads=%ld\n", obs_items ? obs_mem : "-",
-           closed_seen, evl_sz ? evl_mem : "-", n_writes, wr_hash, n_reads);
+    if (wfl) fflush(wfl);
+    printf("obs=%s closed=%d | ev=%s wr=%ld:%08x%s%s reads=%ld\n", obs_items ? obs_mem : "-",
+           closed_seen, evl_sz ? evl_mem : "-", n_writes, wr_hash, wfl ? " wf=" : "",
+           wfl ? (wf_items ? wfl_mem : "-") : "", n_reads);
     close(fd);
   }
   if (aux_fd >= 0) close(aux_fd);
@@ -420,6 +467,7 @@ static void run_stream(coap_proto_t proto) {
   if (ctx) coap_free_context(ctx);
   ctx = NULL; cur = NULL; cur_sock = NULL; aux = NULL; aux_sock = NULL;
   fclose(obs); fclose(evl);
+  if (wfl) { fclose(wfl); free(wfl_mem); wfl = NULL; wfl_mem = NULL; }
   free(obs_mem); free(evl_mem);
   obs_mem = evl_mem = NULL;
   free(stream);
